@@ -1,10 +1,107 @@
-(* C01 — property theorems only. *)
+(* C01 — keepstore never serves or accepts a block whose content mismatches its hash.
+   Property theorems only; each is closed by `exact` of a lemma from proofs/C01_proofs.v.
+   H is an arbitrary digest function: nothing is assumed about MD5.  Model: model/C01_model.v
+   (GetBlock, PutBlock, CompareAndTouch, UnixVolume.Get/Compare/WriteBlock, handleGET/handlePUT). *)
 From Coq Require Import NArith List String Bool.
-From AV Require Import lib.Str model.C01_model proofs.C01_proofs.
+From AV Require Import lib.Str model.C01_model model.C01_run proofs.C01_proofs.
 Import ListNotations.
 Local Open Scope N_scope.
 
-Theorem C01_put_sound : forall (H : content -> string) s h d s',
-  put_block H s h d = (200, s') -> H d = h.
-Proof. exact put_block_ok_hash. Qed.
+(* GET/HEAD succeeds only with a stored copy whose digest is the requested name (length <= BlockSize) *)
+Theorem C01_get_sound : forall (H : content -> string) vs h e c,
+  get_block H vs h e = GOk c ->
+  exists v, In v vs /\ (lookup v h = File c /\ clen c <= BlockSize /\ H c = h).
+Proof. exact get_sound. Qed.
+Print Assumptions C01_get_sound.
+
+(* an intact copy on any volume wins over corrupt, truncated, extended, substituted, oversize or
+   unreadable copies on the other volumes, whatever the volume order *)
+Theorem C01_get_complete : forall (H : content -> string) vs h e,
+  (exists v c, In v vs /\ (lookup v h = File c /\ clen c <= BlockSize /\ H c = h)) ->
+  exists c, get_block H vs h e = GOk c /\ H c = h.
+Proof. exact get_complete. Qed.
+Print Assumptions C01_get_complete.
+
+(* no intact copy => an error (the incoming error code or 500), never data *)
+Theorem C01_get_error_otherwise : forall (H : content -> string) vs h e,
+  (forall v c, In v vs -> ~ (lookup v h = File c /\ clen c <= BlockSize /\ H c = h)) ->
+  exists e', get_block H vs h e = GErr e' /\ (e' = e \/ e' = 500).
+Proof. exact get_error_otherwise. Qed.
+Print Assumptions C01_get_error_otherwise.
+
+Theorem C01_get_absent_404 : forall (H : content -> string) vs h,
+  (forall v, In v vs -> lookup v h = Absent) -> get_block H vs h 404 = GErr 404.
+Proof. exact get_all_absent. Qed.
+Print Assumptions C01_get_absent_404.
+
+(* the answer to a successful GET reports the length of the body it carries *)
+Theorem C01_get_handler_ok : forall (H : content -> string) s h,
+  (exists v c, In v (vols s) /\ (lookup v h = File c /\ clen c <= BlockSize /\ H c = h)) ->
+  exists c, handle_get H s h = {| code := 200; body := Some c; clength := Some (clen c) |} /\ H c = h /\
+            exists v, In v (vols s) /\ (lookup v h = File c /\ clen c <= BlockSize /\ H c = h).
+Proof. exact handle_get_ok. Qed.
+Print Assumptions C01_get_handler_ok.
+
+Theorem C01_get_handler_error : forall (H : content -> string) s h,
+  (forall v c, In v (vols s) -> ~ (lookup v h = File c /\ clen c <= BlockSize /\ H c = h)) ->
+  exists e, handle_get H s h = {| code := e; body := None; clength := None |} /\ (e = 404 \/ e = 500).
+Proof. exact handle_get_err. Qed.
+Print Assumptions C01_get_handler_error.
+
+(* a PUT is acknowledged only if the body hashes to the name; then a copy equal to the body is stored *)
+Theorem C01_put_sound : forall (H : content -> string) s h d r s',
+  handle_put H s h d = (r, s') -> code r = 200 ->
+  H d = h /\ clen d <= BlockSize /\ exists v, In v (vols s') /\ lookup v h = File d.
+Proof. exact handle_put_ok. Qed.
 Print Assumptions C01_put_sound.
+
+(* once acknowledged, GET returns an intact copy — whatever (corrupt) copies were on any volume,
+   including write failures (full, unwritable directory) on some volumes; if the copy served is not
+   the body itself, the two are an explicit digest collision *)
+Theorem C01_put_then_get : forall (H : content -> string) s h d r s',
+  handle_put H s h d = (r, s') -> code r = 200 ->
+  exists c, handle_get H s' h = {| code := 200; body := Some c; clength := Some (clen c) |} /\
+            H c = h /\ (c = d \/ (c <> d /\ H c = H d)).
+Proof. exact put_then_get. Qed.
+Print Assumptions C01_put_then_get.
+
+(* a PUT that is refused (any non-200 status) writes nothing *)
+Theorem C01_put_refused_writes_nothing : forall (H : content -> string) s h d r s',
+  handle_put H s h d = (r, s') -> code r <> 200 -> vols s' = vols s.
+Proof. exact handle_put_fail_unchanged. Qed.
+Print Assumptions C01_put_refused_writes_nothing.
+
+(* a stored block with the same digest but different content: 500, nothing written *)
+Theorem C01_put_collision : forall (H : content -> string) s h d,
+  H d = h -> compare_and_touch H (writable (vols s)) h d = CatCollision -> put_block H s h d = (500, s).
+Proof. exact put_collision_stops. Qed.
+Print Assumptions C01_put_collision.
+
+Theorem C01_put_collision_witness : forall (H : content -> string) ws h d,
+  compare_and_touch H ws h d = CatCollision ->
+  exists v c, In v ws /\ lookup v h = File c /\ c <> d /\ H c = h.
+Proof. exact cat_collision_witness. Qed.
+Print Assumptions C01_put_collision_witness.
+
+(* the boolean oracle that judges the implementation's observations is the Prop-level specification *)
+Theorem C01_spec_b_reflects : forall c, spec_b c = true <-> Spec c.
+Proof. exact spec_b_iff. Qed.
+Print Assumptions C01_spec_b_reflects.
+
+(* the model satisfies the specification on every request sequence, from every volume state *)
+Theorem C01_model_meets_spec : forall (H : content -> string) names ops s,
+  (forall o, In o ops -> In (op_name o) names) ->
+  SpecSteps H (map (listing_of names) (vols s)) ops (map (obs_of names) (run H s ops)).
+Proof. exact model_meets_spec. Qed.
+Print Assumptions C01_model_meets_spec.
+
+(* hypotheses are satisfiable: corrupt copy on a read-only first volume, intact copy on the second *)
+Theorem C01_example_get : handle_get ex_H {| vols := ex_vols; counter := 0 |} "aaa1"%string =
+  {| code := 200; body := Some {| cid := 1; clen := 4 |}; clength := Some 4 |}.
+Proof. exact ex_get_passes_over_corrupt. Qed.
+Print Assumptions C01_example_get.
+
+Theorem C01_example_put :
+  code (fst (handle_put ex_H {| vols := ex_vols; counter := 0 |} "bbb2"%string {| cid := 2; clen := 7 |})) = 200.
+Proof. exact ex_put_acknowledged. Qed.
+Print Assumptions C01_example_put.
